@@ -126,6 +126,7 @@ class SWorldMonitor:
         self.all_fc = True
         self.refused = {}      # sid -> why it was refused (closing / revision / method)
         self.rwin = {}         # sid -> bytes left of the window the server advertised for this stream (revision one)
+        self.send_failed = set()   # streams on which a handler's SendMsg returned an error
         self.sent = {}         # sid -> [complete messages sent by the raw client, bytes of current, size of current]
 
     def feed(self, op, obs_line):
@@ -150,9 +151,14 @@ class SWorldMonitor:
         if op.startswith("s.tick"):
             self.now += int(k["ns"])
         # ---- wire grammar (C13), chunk bound (C06) ----
-        for key, msg in self.wire.feed(o["F"], self.handler_returned, self.cancelled):
+        # a handler whose SendMsg failed has been told the stream is broken; what it sends afterwards is outside the
+        # handler contract the framing clause presupposes (C13_message_framing_server_partial: legalSends)
+        for key, msg in self.wire.feed(o["F"], self.handler_returned, self.cancelled | self.send_failed):
             prop = "C06" if key == "chunk-too-big" else ("C01" if key == "data-corrupt" else "C13")
             v.append((prop, key, msg))
+        for dsid, dop, res in o["D"]:
+            if dop in ("send", "reply") and res != "ok":
+                self.send_failed.add(dsid)
         # ---- C14 / C04: once serve has returned every stream context has ended, so no watcher may remain,
         # and an RPC whose handler has returned has left the table
         g0 = parse_census(o)
@@ -174,6 +180,11 @@ class SWorldMonitor:
             self.blocked = True
         if self.blocked:
             return v       # revision zero hand-off: the loop is blocked, frames are not being processed (D10)
+        # ---- C11: flow control is used on a stream exactly when its new_stream frame carried revision one ----
+        for fsid, f in o["F"]:
+            if f.startswith("wu:") and self.meta.get(fsid, {}).get("rev") == 0:
+                v.append(("C11", "window-update-on-revision-zero-stream", f"stream {fsid} was opened with protocol revision zero "
+                                                                          f"(no flow control) but the server emitted {f}"))
         # ---- C06: the receiver enforces the window IT advertised (64 KiB), per stream ----
         for fsid, f in o["F"]:
             if f.startswith("wu:") and fsid in self.rwin:
@@ -240,7 +251,7 @@ class SWorldMonitor:
                         self.meta[sid] = {"accepted": False}
                     else:
                         self.table.add(sid)
-                        self.meta[sid] = {"accepted": True, "shape": shape, "msgs": 0}
+                        self.meta[sid] = {"accepted": True, "shape": shape, "msgs": 0, "rev": rev}
                         if rev == 1:
                             self.rwin[sid] = 65536
                         if shape != "U" and f"entered {sid} stream" not in ev:
@@ -855,7 +866,11 @@ class LifecycleMonitor:
         if name == "l.rpc":
             if shutting and int(k["t"]) in o["serves"] and o["serves"][int(k["t"])][:1] == ["run"] and o["last"] != "rpc:status:14":
                 v.append(("C10", "rpc-accepted-during-shutdown", f"unary RPC after shutdown began: {o['last']}"))
-            if not shutting and int(k["t"]) not in self.hung and o["last"] != "rpc:ok":
+            # revision zero has head-of-line blocking by design (C03 promises independence only with flow control): behind a
+            # consumer that stopped reading the receive loop is blocked, and another RPC on that tunnel may time out
+            hol = (not self.fc) and any(h["tid"] == int(k["t"]) and h["kind"] == "stuck" and h["res"] in ("open", "")
+                                        for h in o["holds"].values())
+            if not shutting and int(k["t"]) not in self.hung and o["last"] != "rpc:ok" and not hol:
                 v.append(("C10", "rpc-fails-before-shutdown", f"unary RPC on an open tunnel failed: {o['last']}"))
         if name == "l.gstop":
             self.gstop_at = self.step
